@@ -269,14 +269,16 @@ class Sim:
         Wait until no non-watch request has been received for ``quiet`` virtual seconds.
         Returns False if the absolute ``horizon`` was reached first (handling did not terminate).
         """
+        t_begin = self.loop.time()
+
         def last_activity() -> float:
-            t = -1e18
+            t = t_begin   # at least ``quiet`` seconds after the last external change (= when this wait began)
             for r in reversed(self.kube.requests):
                 if r.kind in ('watch', 'list', 'discovery'):
                     continue
                 if clients is not None and r.client not in clients:
                     continue
-                t = r.t
+                t = max(t, r.t)
                 break
             return t
         while True:
